@@ -340,7 +340,8 @@ class Scan:
                 self.set_sites.append((file, qual, f.id, ast.unparse(node)))
             if isinstance(f, ast.Attribute) and f.attr == "pop" and not node.args and not node.keywords:
                 k = self.kind(f.value, env)
-                rec = (file, qual, "pop", ast.unparse(f.value))
+                # a bare local name is not part of the site's identity (renaming it is harmless)
+                rec = (file, qual, "pop", "<local>" if isinstance(f.value, ast.Name) else ast.unparse(f.value))
                 if k == SET:
                     self.set_sites.append(rec)
                 elif k == UNK:
